@@ -1,16 +1,19 @@
 #!/usr/bin/env python3
-"""xcheck.py <Cxx> <workdir> [max_cases]
+"""xcheck.py <Cxx> <workdir> [max_cases] [--tamper]
 
 Second opinion on extraction: a shard of the very case lines the extracted OCaml driver answered
 (<workdir>/cases.txt, <workdir>/model.txt) is turned into Gallina terms, and ONE coqc call evaluates the
 same model definitions inside Coq with vm_compute and compares them with what the driver printed.
 A disagreement means extraction (ExtrOcamlBasic), the OCaml compiler or the hand-written driver changed the
 model's behaviour.  Prints one JSON object: {"cases": n, "bad": [case line numbers], "rc": coqc exit code}.
-Only the case kinds listed per property below are converted; the rest is skipped (counted in "skipped")."""
+Only the case kinds listed per property below are converted; the rest is skipped (counted in "skipped").
+Properties: C05 C10 C11 C16 C17 (all or most kinds), C06 C07 (every kind), C14 (hist), C18 (all but uuid tuuid tlb encr hs).
+--tamper is the tool's self-test: one driver answer per case kind is changed in memory before it is rendered, and the
+result says whether exactly the changed lines came back as disagreements ("tamper_listed")."""
 import json, os, subprocess, sys
 
 ROOT = os.path.dirname(os.path.dirname(os.path.abspath(__file__)))
-COQ = os.path.join(ROOT, "coq")
+COQ = os.environ.get("XCHECK_COQ") or os.path.join(ROOT, "coq")      # XCHECK_COQ: a private build tree (development)
 
 
 def zlit(s):
@@ -36,7 +39,7 @@ def nlist_hex(s):
 
 PRELUDE = """From Coq Require Import List ZArith NArith Bool.
 Import ListNotations.
-From GoMC Require Import Base.Bytes Base.Dec Model.%s.
+From GoMC Require Import Base.Bytes Base.Dec %s.
 Fixpoint leqb (a b : list N) : bool :=
   match a, b with [] , [] => true | x :: a', y :: b' => N.eqb x y && leqb a' b' | _, _ => false end.
 Definition bad (l : list (N * bool)) : list N := map fst (filter (fun x => negb (snd x)) l).
@@ -497,39 +500,729 @@ def c10(case, out):
     return None
 
 
-TABLE = {"C05": ("C05", C05_DEFS, c05), "C11": ("C11", C11_DEFS, c11), "C16": ("C16", C16_DEFS, c16),
-         "C17": ("C17", C17_DEFS, c17), "C10": ("C10", C10_DEFS, c10)}
+# ------------------------------------------------------------------ C06
+# every kind of driver/c06.ml: enc dec fbs raw plug pkt nbtw nbtr.  Types and values are parsed exactly as p_ty / p_val do;
+# the driver's `show` drops the spare capacity of slices, so decoded values are compared up to spare (veq).
+C06_DEFS = """
+Fixpoint veq (a b : fval) {struct a} : bool :=
+  match a, b with
+  | VB x, VB y => Bool.eqb x y
+  | VZ x, VZ y => Z.eqb x y
+  | VBytes x _, VBytes y _ => leqb x y
+  | VPos x y z, VPos x' y' z' => Z.eqb x x' && Z.eqb y y' && Z.eqb z z'
+  | VList xs _, VList ys _ =>
+      (fix go (l m : list fval) : bool :=
+         match l, m with [], [] => true | x :: l', y :: m' => veq x y && go l' m' | _, _ => false end) xs ys
+  | VOpt h v, VOpt h' v' => Bool.eqb h h' && veq v v'
+  | VPair a1 a2, VPair b1 b2 => veq a1 b1 && veq a2 b2
+  | VUnit, VUnit => true
+  | _, _ => false end.
+Fixpoint vseq (a b : list fval) : bool :=
+  match a, b with [], [] => true | x :: a', y :: b' => veq x y && vseq a' b' | _, _ => false end.
+Definition fl : nat := N.to_nat 6000.
+Definition cls {A} (r : fres A) : N := match r with FOk _ _ => 0 | FErr _ => 1 | FPanic _ => 2 | FFuel => 3 end.
+Definition xw (r : wres) (b : list N) (n : N) : bool := leqb (fst r) b && N.eqb (snd r) n.
+Definition xenc (t : fty) (v : fval) (b : list N) (n : N) := xw (wr t v) b n.
+Definition xdec (t : fty) (old : fval) (h : list N) (e : option (fval * N * N)) (k : N) : bool :=
+  match run_flat (read_f fl t old) h, e with
+  | FOk (v, n) rest, Some (v', n', r') => veq v v' && N.eqb n n' && N.eqb (lenN rest) r'
+  | FOk _ _, None => false
+  | r, None => N.eqb (cls r) k
+  | _, _ => false end.
+(* fbs: the driver prints `panic` for a crash AND for exhausted fuel; plug: `err` for everything that is not FOk *)
+Definition xfbs (old h : list N) (e : option (list N * N * N)) (k : N) : bool :=
+  match run_flat (r_fixedbitset old) h, e with
+  | FOk (v, n) rest, Some (v', n', r') => leqb v v' && N.eqb n n' && N.eqb (lenN rest) r'
+  | FOk _ _, None => false
+  | FErr _, None => N.eqb k 1
+  | _, None => N.eqb k 2
+  | _, _ => false end.
+Definition xplug (h : list N) e k := match r_plugin h, e with
+  | FOk (v, n) rest, Some (v', n', r') => leqb v v' && N.eqb n n' && N.eqb (lenN rest) r'
+  | FOk _ _, None => false | _, None => N.eqb k 1 | _, _ => false end.
+Definition xpkt (fs : list (fty * fval * fval)) (extra data : list N) (e : option (list fval)) (k : N) : bool :=
+  let d := marshal (map (fun x => (fst (fst x), snd (fst x))) fs) in
+  leqb d data &&
+  match run_flat (scan fl (map (fun x => (fst (fst x), snd x)) fs)) (d ++ extra), e with
+  | FOk vs _, Some vs' => vseq vs vs'
+  | FOk _ _, None => false
+  | r, None => N.eqb (cls r) k
+  | _, _ => false end.
+Definition xnbtw (enc : option (list (list N))) (b : list N) (n : N) := xw (w_nbtfield enc) b n.
+(* the stand-in NBT decoder driver/c06.ml builds by hand: a root TagEnd raises ErrEND (class 7), any other document
+   consumes exactly its image *)
+Definition xnbtr (img tail : list N) (keep : nat) (e : option (N * N)) (k : N) : bool :=
+  let d := ReadByte (fun id => if N.eqb id 0 then Fail 7 else ReadFull (lenN img - 1) (fun bs => Ret bs)) in
+  match run_flat (r_nbtfield 7 d) (firstn keep img ++ tail), e with
+  | FOk (_, n) rest, Some (n', r') => N.eqb n n' && N.eqb (lenN rest) r'
+  | FOk _ _, None => false
+  | r, None => N.eqb (cls r) k
+  | _, _ => false end.
+"""
+
+_HEXD = "0123456789abcdef"
+C06_LEAF = {"bool": "TBool", "i8": "TByte", "u8": "TUByte", "i16": "TShort", "u16": "TUShort", "i32": "TInt", "i64": "TLong",
+            "f32": "TFloat", "f64": "TDouble", "vi": "TVarInt", "vl": "TVarLong", "str": "TString", "ba": "TByteArray",
+            "uuid": "TUUID", "ang": "TAngle", "pos": "TPosition", "bits": "TBitSet"}
+C06_LENK = {"vi": "LVarInt", "vl": "LVarLong", "i8": "LByte", "u8": "LUByte", "i16": "LShort", "u16": "LUShort", "i32": "LInt", "i64": "LLong"}
+CLS = {"ok": 0, "err": 1, "panic": 2, "fuel": 3}
+
+
+def strict_hex(h):
+    """what conv.ml's bytes_of_hex accepts without raising: "-", "" or an even number of hex digits"""
+    if h in ("-", ""):
+        return "[]"
+    if len(h) % 2 or any(ch not in _HEXD for ch in h):
+        raise ValueError("hex " + h)
+    return bytes_of_hex(h)
+
+
+def strict_dec(d):
+    if not d or d == "-" or not (d.lstrip("-").isdigit() and d.count("-") == (1 if d[0] == "-" else 0)):
+        raise ValueError("decimal " + d)
+    return zlit(d)
+
+
+class _C06P:
+    """the cursor of driver/c06.ml (peek / adv / expect / take_while)"""
+
+    def __init__(self, s):
+        self.s, self.i = s, 0
+
+    def peek(self):
+        return self.s[self.i] if self.i < len(self.s) else "\0"
+
+    def expect(self, ch):
+        if self.peek() != ch:
+            raise ValueError("expected %s at %d" % (ch, self.i))
+        self.i += 1
+
+    def take(self, pred):
+        st = self.i
+        while self.i < len(self.s) and pred(self.s[self.i]):
+            self.i += 1
+        return self.s[st:self.i]
+
+    @staticmethod
+    def alnum(ch):
+        return "a" <= ch <= "z" or "0" <= ch <= "9"
+
+    @staticmethod
+    def hexch(ch):
+        return "a" <= ch <= "f" or "0" <= ch <= "9" or ch == "-"
+
+    @staticmethod
+    def num(ch):
+        return "0" <= ch <= "9" or ch == "-"
+
+    def ty(self):
+        w = self.take(self.alnum)
+        if w in C06_LEAF:
+            return C06_LEAF[w]
+        if w == "ary":
+            self.expect(":")
+            k = C06_LENK.get(self.take(self.alnum))
+            if k is None:
+                raise ValueError("len kind")
+            self.expect("("); e = self.ty(); self.expect(")")
+            return "(TAry %s %s)" % (k, e)
+        if w in ("option", "opt1", "opt0"):
+            self.expect("("); e = self.ty(); self.expect(")")
+            return {"option": "(TOption %s)", "opt1": "(TOpt true %s)", "opt0": "(TOpt false %s)"}[w] % e
+        if w == "tup":
+            self.expect("(")
+            items = []
+            while self.peek() != ")":
+                items.append(self.ty())
+                if self.peek() == ",":
+                    self.i += 1
+            self.i += 1
+            t = "TUnit"
+            for x in reversed(items):
+                t = "(TPair %s %s)" % (x, t)
+            return t
+        raise ValueError("type " + w)
+
+    def val(self):
+        ch = self.peek()
+        if ch == "t":
+            self.i += 1
+            return "(VB true)"
+        if ch == "f":
+            self.i += 1
+            return "(VB false)"
+        if ch == "x":
+            self.i += 1
+            b = self.take(self.hexch)
+            sp = "-"
+            if self.peek() == "+":
+                self.i += 1
+                sp = self.take(self.hexch)
+            return "(VBytes %s %s)" % (strict_hex(b), strict_hex(sp))
+        if ch == "p":
+            self.i += 1
+            self.expect("("); x = self.take(self.num); self.expect(",")
+            y = self.take(self.num); self.expect(","); z = self.take(self.num); self.expect(")")
+            return "(VPos %s %s %s)" % (strict_dec(x), strict_dec(y), strict_dec(z))
+        if ch == "[":
+            self.i += 1
+            xs = self.items()
+            sp = []
+            if self.peek() == "|":
+                self.i += 1
+                sp = self.items()
+            self.expect("]")
+            return "(VList [%s] [%s])" % ("; ".join(xs), "; ".join(sp))
+        if ch in ("s", "n"):
+            self.take(self.alnum)
+            self.expect("("); v = self.val(); self.expect(")")
+            return "(VOpt %s %s)" % ("true" if ch == "s" else "false", v)
+        if ch == "(":
+            self.i += 1
+            items = []
+            while self.peek() != ")":
+                items.append(self.val())
+                if self.peek() == ",":
+                    self.i += 1
+            self.i += 1
+            t = "VUnit"
+            for x in reversed(items):
+                t = "(VPair %s %s)" % (x, t)
+            return t
+        return "(VZ %s)" % strict_dec(self.take(self.num))
+
+    def items(self):
+        out = []
+        while self.peek() not in ("]", "|"):
+            out.append(self.val())
+            if self.peek() == ",":
+                self.i += 1
+        return out
+
+
+def c06_ty(s):
+    return _C06P(s).ty()          # like ty_of: what follows the type is ignored by the driver too
+
+
+def c06_val(s):
+    return _C06P(s).val()
+
+
+def c06_shown(s):
+    """a value as the driver's `show` prints it; `!` marks an improper tuple, which p_val cannot read back"""
+    if "!" in s:
+        raise ValueError("improper tuple")
+    p = _C06P(s)
+    v = p.val()
+    if p.i != len(s):
+        raise ValueError("trailing " + s)
+    return v
+
+
+def c06(case, out):
+    c, o = case.split(" "), out.split(" ")
+    c, o = [x for x in c if x], [x for x in o if x]
+    if not c or not o or c[0] != o[0]:
+        return None
+    k = c[0]
+    if k == "enc" and len(c) == 3 and len(o) == 3:
+        return "xenc %s %s %s %s" % (c06_ty(c[1]), c06_val(c[2]), strict_hex(o[1]), nlit(o[2]))
+    if k == "dec" and len(c) == 4:
+        head = "xdec %s %s %s" % (c06_ty(c[1]), c06_val(c[2]), strict_hex(c[3]))
+        if len(o) == 5 and o[1] == "ok":
+            return "%s (Some (%s, %s, %s)) 0" % (head, c06_shown(o[2]), nlit(o[3]), nlit(o[4]))
+        if len(o) == 2 and o[1] in ("err", "panic", "fuel"):
+            return "%s None %d" % (head, CLS[o[1]])
+    if k == "fbs" and len(c) == 3:
+        head = "xfbs %s %s" % (strict_hex(c[1]), strict_hex(c[2]))
+        if len(o) == 5 and o[1] == "ok":
+            return "%s (Some (%s, %s, %s)) 0" % (head, strict_hex(o[2]), nlit(o[3]), nlit(o[4]))
+        if len(o) == 2 and o[1] in ("err", "panic"):
+            return "%s None %d" % (head, CLS[o[1]])
+    if k == "raw" and len(c) == 2 and len(o) == 3:
+        return "xw (w_raw %s) %s %s" % (strict_hex(c[1]), strict_hex(o[1]), nlit(o[2]))
+    if k == "plug" and len(c) == 2:
+        if len(o) == 5 and o[1] == "ok":
+            return "xplug %s (Some (%s, %s, %s)) 0" % (strict_hex(c[1]), strict_hex(o[2]), nlit(o[3]), nlit(o[4]))
+        if len(o) == 2 and o[1] == "err":
+            return "xplug %s None 1" % strict_hex(c[1])
+    if k == "pkt" and len(c) >= 2 and (len(c) - 2) % 3 == 0 and len(o) >= 3:
+        fs = ["(%s, %s, %s)" % (c06_ty(c[i]), c06_val(c[i + 1]), c06_val(c[i + 2])) for i in range(1, len(c) - 1, 3)]
+        head = "xpkt [%s] %s %s" % ("; ".join(fs), strict_hex(c[-1]), strict_hex(o[1]))
+        if o[2] == "ok" and len(o) - 3 == len(fs):
+            return "%s (Some [%s]) 0" % (head, "; ".join(c06_shown(x) for x in o[3:]))
+        if len(o) == 3 and o[2] in ("err", "panic", "fuel"):
+            return "%s None %d" % (head, CLS[o[2]])
+    if k == "nbtw" and len(c) == 2 and len(o) == 3:
+        enc = "None" if c[1] == "nil" else "(Some [%s])" % "; ".join(strict_hex(x) for x in c[1].split(","))
+        return "xnbtw %s %s %s" % (enc, strict_hex(o[1]), nlit(o[2]))
+    if k == "nbtr" and len(c) == 4:
+        if not c[3].lstrip("-").isdigit():
+            return None
+        ln, cut = (len(c[1]) // 2 if c[1] != "-" else 0), int(c[3])
+        if ln == 0:
+            return None                     # the driver's n_of_int (len - 1) is meaningless on an empty image
+        keep = ln - cut if ln - cut >= 0 else ln       # the driver's `take` with a negative count takes everything
+        head = "xnbtr %s %s %d%%nat" % (strict_hex(c[1]), strict_hex(c[2]), keep)
+        if len(o) == 4 and o[1] == "ok":
+            return "%s (Some (%s, %s)) 0" % (head, nlit(o[2]), nlit(o[3]))
+        if len(o) == 2 and o[1] in ("err", "panic", "fuel"):
+            return "%s None %d" % (head, CLS[o[1]])
+    return None
+
+
+# ------------------------------------------------------------------ C07
+# every kind of driver/c07.ml: pack packhdr own unpackn plainz conn.  zlib is an oracle of the model, handed over per case
+# as a table, so the evaluation inside Coq is cheap.  The driver's ` oracle-miss` flag is a side effect of its lookup
+# function and is not compared (the results around it are).
+C07_DEFS = """
+Definition stale : list N := [222; 173; 190; 239; 0; 128; 1].
+Definition xpack (thr id : Z) (d zb : list N) (some : bool) (infl : list N) (ln : N) (frame : list N) (ok : bool) : bool :=
+  let fr := pack (fun _ => zb) thr stale (id, d) in
+  let strict := fun arg => if leqb arg zb && some then Some infl else None in
+  let okk := match spec_frame_reader strict thr fr with Some (i, dd) => Z.eqb i id && leqb dd d | None => false end in
+  leqb fr frame && N.eqb (lenN d) ln && Bool.eqb okk ok.
+Definition xpackhdr (thr id : Z) (n zn : N) (h : list N) (c : bool) : bool :=
+  let r := pack_hdr thr id n zn in leqb (fst r) h && Bool.eqb (snd r) c.
+Definition cls {A} (r : fres A) : N := match r with FOk _ _ => 0 | FErr _ => 1 | FPanic _ => 2 | FFuel => 3 end.
+Definition oracle (es : list (list N * option (list N))) (arg : list N) : option (list N) :=
+  match find (fun e => leqb (fst e) arg) es with Some e => snd e | None => None end.
+Fixpoint pools (i : nat) (n : nat) : list (list N) :=
+  match n with O => [] | S n' => (if Nat.even i then stale else []) :: pools (S i) n' end.
+Fixpoint rs_eqb (a : list rstate) (b : list (Z * N * list N)) : bool :=
+  match a, b with
+  | [], [] => true
+  | r :: a', (i, c, d) :: b' => Z.eqb (r_id r) i && N.eqb (r_cap r) c && leqb (r_data r) d && rs_eqb a' b'
+  | _, _ => false end.
+Definition old0 (cap : N) : rstate := {| r_id := 77; r_data := []; r_cap := cap |}.
+(* oracle entries arrive as (offset, length) into the input, like in the case line *)
+Definition xunpackn (thr : Z) (count : nat) (oldcap : N) (inp : list N) (es : list (nat * nat * option (list N)))
+    (e : option (list (Z * N * list N) * N)) (k : N) : bool :=
+  let tb := map (fun x => (firstn (snd (fst x)) (skipn (fst (fst x)) inp), snd x)) es in
+  match run_flat (unpack_seq (oracle tb) thr (pools 0 count) (old0 oldcap)) inp, e with
+  | FOk rs rest, Some (rs', l) => rs_eqb rs rs' && N.eqb (lenN rest) l
+  | FOk _ _, None => false
+  | r, None => N.eqb (cls r) k
+  | _, _ => false end.
+(* conn: the deflate / inflate table of the case, latest event first, keyed by VarInt(id) ++ payload *)
+Definition xconn (oldcap : N) (trail : list N) (evs : list (ev N)) (tb0 : list (Z * list N * list N)) (wire : list N)
+    (e : option (list (Z * N * list N) * N * Z * Z)) (k : N) : bool :=
+  let tb := map (fun x => (write32 (fst (fst x)) ++ snd (fst x), snd x)) tb0 in
+  let defl := fun x => match find (fun e => leqb (fst e) x) tb with Some e => snd e | None => [] end in
+  let infl := fun z => match find (fun e => leqb (snd e) z) tb with Some e => Some (fst e) | None => None end in
+  let '(w, ca) := send_all N toy_enc defl (wrap_conn2 N) evs in
+  leqb w wire &&
+  match recv_all N toy_dec infl (wrap_conn2 N) evs (old0 oldcap) (w ++ trail), e with
+  | FOk (rs, cb) rest, Some (rs', l, ta, tb') => rs_eqb rs rs' && N.eqb (lenN rest) l && Z.eqb (k_thr N ca) ta && Z.eqb (k_thr N cb) tb'
+  | FOk _ _, None => false
+  | r, None => N.eqb (cls r) k
+  | _, _ => false end.
+"""
+
+
+def natlit(s):
+    if not s.isdigit():
+        raise ValueError("nat " + s)
+    return "%d%%nat" % int(s)
+
+
+def unlit(s):
+    if not s.isdigit():
+        raise ValueError("N " + s)
+    return nlit(s)
+
+
+def c07_rs(toks):
+    if len(toks) % 3:
+        raise ValueError("rstate triples")
+    return "[%s]" % "; ".join("(%s, %s, %s)" % (strict_dec(toks[j]), unlit(toks[j + 1]), strict_hex(toks[j + 2])) for j in range(0, len(toks), 3))
+
+
+def c07(case, out):
+    c = [x for x in case.split(" ") if x]
+    o = [x for x in out.split(" ") if x and x != "oracle-miss"]
+    if not c or not o or c[0] != o[0]:
+        return None
+    k = c[0]
+    b = lambda x: "true" if x else "false"
+    if k == "pack" and len(c) == 7 and len(o) == 6 and o[1:3] == c[1:3] and o[5] in ("spec=ok", "spec=bad"):
+        return "xpack %s %s %s %s %s %s %s %s %s" % (strict_dec(c[1]), strict_dec(c[2]), strict_hex(c[3]), strict_hex(c[4]), b(c[5] == "some"),
+                                                    strict_hex(c[6]) if c[5] == "some" else "[]", unlit(o[3]), strict_hex(o[4]), b(o[5] == "spec=ok"))
+    if k == "packhdr" and len(c) == 5 and len(o) == 7 and o[1:5] == c[1:5] and o[6] in ("z", "p"):
+        return "xpackhdr %s %s %s %s %s %s" % (strict_dec(c[1]), strict_dec(c[2]), unlit(c[3]), unlit(c[4]), strict_hex(o[5]), b(o[6] == "z"))
+    if k == "own" and len(c) == 4 and len(o) == 5 and o[1:4] == c[1:4] and o[4] in ("ok", "err"):
+        return "Bool.eqb (own_accepts %s %s %s) %s" % (strict_dec(c[1]), strict_dec(c[2]), unlit(c[3]), b(o[4] == "ok"))
+    if k == "plainz" and len(c) == 4 and len(o) == 5 and o[1:4] == c[1:4] and o[4] in ("ok", "err"):
+        return "Bool.eqb (plain_accepts %s %s) %s" % (strict_dec(c[2]), unlit(c[3]), b(o[4] == "ok"))
+    if k == "unpackn" and len(c) >= 6 and len(o) >= 5 and o[1:4] == c[1:4]:
+        m = int(natlit(c[5])[:-4])
+        toks = c[6:]
+        if len(toks) < 4 * m:
+            return None
+        es = []
+        for j in range(m):
+            zoff, zlen, kind, outh = toks[4 * j:4 * j + 4]
+            es.append("(%s, %s, %s)" % (natlit(zoff), natlit(zlen), "Some %s" % strict_hex(outh) if kind == "some" else "None"))
+        head = "xunpackn %s %s %s %s [%s]" % (strict_dec(c[1]), natlit(c[2]), unlit(c[3]), strict_hex(c[4]), "; ".join(es))
+        if o[4] == "r=ok" and o[-1].startswith("left="):
+            return "%s (Some (%s, %s)) 0" % (head, c07_rs(o[5:-1]), unlit(o[-1][5:]))
+        if len(o) == 5 and o[4] in ("r=err", "r=panic", "r=fuel"):
+            return "%s None %d" % (head, CLS[o[4][2:]])
+        return None
+    if k == "conn" and len(c) >= 4 and len(o) >= 5 and o[1] == c[1] and o[2] == c[3] and o[3].startswith("wire="):
+        nev = int(natlit(c[3])[:-4])
+        toks, evs, tb = c[4:], [], []
+        for kk in range(nev, 0, -1):
+            if toks[:1] == ["P"] and len(toks) >= 4:
+                idz, d = strict_dec(toks[1]), strict_hex(toks[2])
+                if toks[3] != "-":
+                    tb.insert(0, "(%s, %s, %s)" % (idz, d, strict_hex(toks[3])))
+                evs.append("EPacket N %s %s (%s, %s)" % ("stale" if kk % 2 == 0 else "[]", "stale" if kk % 3 == 0 else "[]", idz, d))
+                toks = toks[4:]
+            elif toks[:1] == ["T"] and len(toks) >= 2:
+                evs.append("EThreshold N %s" % strict_dec(toks[1]))
+                toks = toks[2:]
+            elif toks[:1] == ["C"] and len(toks) >= 5:
+                evs.append("ECipher N %s %s %s %s" % tuple(unlit(x) for x in toks[1:5]))
+                toks = toks[5:]
+            else:
+                return None
+        head = "xconn %s %s [%s] [%s] %s" % (unlit(c[1]), strict_hex(c[2]), "; ".join(evs), "; ".join(tb), strict_hex(o[3][5:]))
+        if o[4] == "r=ok" and len(o) >= 7 and o[-2].startswith("left=") and o[-1].startswith("thr=") and "/" in o[-1]:
+            ta, tbb = o[-1][4:].split("/")
+            return "%s (Some (%s, %s, %s, %s)) 0" % (head, c07_rs(o[5:-2]), unlit(o[-2][5:]), strict_dec(ta), strict_dec(tbb))
+        if len(o) == 5 and o[4] in ("r=err", "r=panic", "r=fuel"):
+            return "%s None %d" % (head, CLS[o[4][2:]])
+        return None
+    return None
+
+
+# ------------------------------------------------------------------ C14 / C15 (one model, one driver)
+# kind converted: hist (histories of WriteSector / ReadSector / ExistSector / PadToFullSector / reopen / WriteSector on
+# a failing medium, with every observation and the final file digest).  The driver prints FNV-1a digests computed with
+# OCaml Int64 arithmetic; here the same digest is computed in N modulo 2^64.  Histories that carry more than
+# C14_MAXBYTES payload bytes (the 1 MiB `toolarge` writes) are left out; kinds raw and crash are skipped by kind: their
+# answers are digests of PRINTED text (decimal / hex renderings of 1024 read results per image), which has no
+# counterpart inside Coq.
+C14_MAXBYTES = 40000
+C14_DEFS = """
+Definition M64 : N := 18446744073709551616.
+Definition fstep (h c : N) : N := N.land (1099511628211 * N.lxor h c) (M64 - 1).   (* land, not mod: linear *)
+Definition finit : N := 14695981039346656037.
+Definition fnv (l : list N) : N := fold_left fstep l finit.
+Fixpoint payload_from (seed i : N) (n : nat) : list N :=
+  match n with O => [] | S n' => N.land (seed + i * 13 + N.shiftr i 8 * 7) 255 :: payload_from seed (i + 1) n' end.
+Definition payload (seed : N) (n : N) : list N := payload_from seed 0 (N.to_nat n).
+Fixpoint ws_eqb (ws : list wr) (e : list (N * N * N)) : bool :=
+  match ws, e with
+  | [], [] => true
+  | (p, (_, d)) :: ws', (p', l, h) :: e' => N.eqb p p' && N.eqb (lenN d) l && N.eqb (fnv d) h && ws_eqb ws' e'
+  | _, _ => false end.
+Definition tab_hash (m : nmap) : N :=
+  fold_left (fun h i => let v := getN m (N.of_nat i) in
+     fstep (fstep (fstep (fstep h ((v / 16777216) mod 256)) ((v / 65536) mod 256)) ((v / 256) mod 256)) (v mod 256)) (seq 0 1024) finit.
+(* what the driver printed for one operation *)
+Inductive xo := XW (r : N) (ws : list (N * N * N)) | XRok (l h : N) | XR (r : N) | XE (b : bool) | XP (ws : list (N * N * N))
+  | XO (e : option (N * N)).
+Inductive xop := Op (o : op) | Wf (x z len seed now : N) (k : nat) (short : N).
+Definition obs_ok (s' : st) (b : obs) (x : xo) : bool :=
+  match b, x with
+  | BWrite r ws, XW r' e => N.eqb (match r with WOk => 0 | WTooLarge => 1 | WOutside => 2 end) r' && ws_eqb ws e
+  | BRead (ROk d), XRok l h => N.eqb (lenN d) l && N.eqb (fnv d) h
+  | BRead r, XR r' => N.eqb (match r with ROk _ => 0 | RNoSector => 1 | RNoData => 2 | RNegative => 3 | RTooLarge => 4 | REOF => 5 end) r'
+  | BExist v, XE v' => Bool.eqb v v'
+  | BPad ws, XP e => ws_eqb ws e
+  | BReopen true, XO (Some (a, c)) => N.eqb (tab_hash (offs s')) a && N.eqb (tab_hash (tss s')) c
+  | BReopen false, XO None => true
+  | _, _ => false end.
+Fixpoint fhash (fuel : nat) (f : file) (pos sz h : N) : N :=
+  match fuel with O => h | S k =>
+    if sz <=? pos then h else
+    let n := N.min 4096 (sz - pos) in fhash k f (pos + n) sz (fold_left fstep (read_range f pos n) h) end.
+Fixpoint xhist (s : st) (ops : list (xop * xo)) (size h : N) : bool :=
+  match ops with
+  | [] => let f := img s in N.eqb (fsize f) size && N.eqb (fhash (N.to_nat (size / 4096 + 2)) f 0 size finit) h
+  | (Op o, x) :: t => let '(s', b) := step s o in obs_ok s' b x && xhist s' t size h
+  | (Wf x z len seed now k short, e) :: t =>
+      let '(s', ws, r) := write_sector_fail k short s x z (payload seed len) now in
+      match e with
+      | XW r' e' => N.eqb (match r with WFOk => 0 | WFTooLarge => 1 | WFOutside => 2 | WFErr => 3 end) r' && ws_eqb ws e'
+      | _ => false end && xhist s' t size h
+  end.
+"""
+C14_W = {"ok": 0, "toolarge": 1, "outside": 2, "err": 3}
+C14_R = {"nosector": 1, "nodata": 2, "neg": 3, "toolarge": 4, "eof": 5}
+
+
+def hexn(h):
+    if not h or any(ch not in _HEXD for ch in h):
+        raise ValueError("hex64 " + h)
+    return nlit(int(h, 16))
+
+
+def c14_writes(toks):
+    """<count> <pos>:<len>:<fnv> ..."""
+    if not toks or int(toks[0]) != len(toks) - 1:
+        raise ValueError("writes")
+    out = []
+    for t in toks[1:]:
+        a, b, c = t.split(":")
+        out.append("(%s, %s, %s)" % (unlit(a), unlit(b), hexn(c)))
+    return "[%s]" % "; ".join(out)
+
+
+def c14(case, out):
+    if not case.startswith("hist ") or not out.startswith("hist "):
+        return None
+    ops, total = [], 0
+    for txt in case[5:].split(";"):
+        t = [x for x in txt.split(" ") if x]
+        if len(t) == 6 and t[0] == "w":
+            total += int(natlit(t[3])[:-4])
+            ops.append(("W", "Op (OWrite %s %s (payload %s %s) %s)" % (unlit(t[1]), unlit(t[2]), unlit(t[4]), unlit(t[3]), unlit(t[5]))))
+        elif len(t) == 8 and t[0] == "wf":
+            total += int(natlit(t[3])[:-4])
+            ops.append(("W", "Wf %s %s %s %s %s %s %s" % (unlit(t[1]), unlit(t[2]), unlit(t[3]), unlit(t[4]), unlit(t[5]), natlit(t[6]), unlit(t[7]))))
+        elif len(t) == 3 and t[0] in ("r", "e"):
+            ops.append((t[0].upper(), "Op (%s %s %s)" % ("ORead" if t[0] == "r" else "OExist", unlit(t[1]), unlit(t[2]))))
+        elif t == ["p"]:
+            ops.append(("P", "Op OPad"))
+        elif t == ["o"]:
+            ops.append(("O", "Op OReopen"))
+        # anything else is dropped by the driver too (filter_map)
+    if total > C14_MAXBYTES:
+        return None
+    obs = out[5:].split("|")
+    if len(obs) != len(ops) + 1:
+        return None
+    pairs = []
+    for (tag, op), ob in zip(ops, obs):
+        t = [x for x in ob.split(" ") if x]
+        if t[0] != tag:
+            return None
+        if tag == "W" and len(t) >= 3 and t[1] in C14_W:
+            x = "XW %d %s" % (C14_W[t[1]], c14_writes(t[2:]))
+        elif tag == "R" and len(t) == 4 and t[1] == "ok":
+            x = "XRok %s %s" % (unlit(t[2]), hexn(t[3]))
+        elif tag == "R" and len(t) == 2 and t[1] in C14_R:
+            x = "XR %d" % C14_R[t[1]]
+        elif tag == "E" and len(t) == 2 and t[1] in ("true", "false"):
+            x = "XE %s" % t[1]
+        elif tag == "P" and len(t) >= 3 and t[1] == "ok":
+            x = "XP %s" % c14_writes(t[2:])
+        elif tag == "O" and len(t) == 4 and t[1] == "ok":
+            x = "XO (Some (%s, %s))" % (hexn(t[2]), hexn(t[3]))
+        elif tag == "O" and t[1:] == ["err"]:
+            x = "XO None"
+        else:
+            return None
+        pairs.append("(%s, %s)" % (op, x))
+    f = [x for x in obs[-1].split(" ") if x]
+    if len(f) != 3 or f[0] != "F":
+        return None
+    return "xhist create [%s] %s %s" % ("; ".join(pairs), unlit(f[1]), hexn(f[2]))
+
+
+# ------------------------------------------------------------------ C18
+# kinds converted: dig tdig twos lb const aes vs pkv tvs tpkv (hand model AND the functions translated into Gen/C18gen.v).
+# SHA-1 / SHA-256 / base64 / RSA are per-case oracles, rebuilt here exactly as the driver builds them (the base64 Write
+# calls of b64_chunks / b64_parts are recomputed in this file).  vs / tvs: the driver reports the SHA-256 argument
+# through a side effect; here the oracle answers with the case's digest only for that reported argument.
+# Skipped by kind: uuid tuuid (MD5 is OCaml's Digest in the driver - no counterpart inside Coq), tlb encr hs (stateful
+# driver loops over translated methods with many oracle arguments; left to the extracted driver).
+C18_DEFS = """
+From GoMC Require Import Model.C18_enc Gen.C18gen.
+Definition rb_eqb (r : res bool) (k : N) : bool :=
+  match r with Ok false => N.eqb k 0 | Ok true => N.eqb k 1 | Panic => N.eqb k 2 | OutOfFuel => N.eqb k 3 end.
+Definition rl_eqb (r : res (list N)) (e : option (list N)) (k : N) : bool :=
+  match r, e with Ok a, Some b => leqb a b | Ok _, None => false | Panic, None => N.eqb k 2 | OutOfFuel, None => N.eqb k 3 | _, _ => false end.
+Definition sha1o (arg hb : list N) (m : list N) : list N := if leqb m arg then hb else [].
+Definition xdig (tr bot : bool) (sid secret key hb : list N) (e : option (list N)) (k : N) (jh : option (list N)) : bool :=
+  let f := if tr then (if bot then bot_authDigest else auth_authDigest) else (if bot then bot_auth_digest else server_auth_digest) in
+  rl_eqb (f (sha1o (sid ++ secret ++ key) hb) sid secret key) e k &&
+  match jh with Some t => leqb (java_hex (signed_be hb)) t | None => true end.
+Definition xlb (chunks : list (list N)) (e : option (list N * list N)) (k : N) (pem : list N) : bool :=
+  match lb_run chunks, e with
+  | Ok (out, ns), Some (out', ns') => leqb out out' && leqb ns ns'
+  | Ok _, None => false | Panic, None => N.eqb k 2 | OutOfFuel, None => N.eqb k 3 | _, _ => false end
+  && leqb (pem_lines (concat chunks)) pem.
+Definition rsao (fp h sg : list N) (v : bool) (k hh s : list N) : bool := leqb k fp && leqb hh h && leqb s sg && v.
+Definition sha256o (payload h : list N) (m : list N) : list N := if leqb m payload then h else h ++ [0].
+(* the SHA-256 argument the driver reported: a second evaluation with the identity as SHA-256 and an RSA oracle that
+   accepts exactly that argument must say `true` (nothing is asked when the reported argument is empty) *)
+Definition xvs (fp key sg h : list N) (v : bool) (chunks : list (list N)) (payload : list N) (k : N) : bool :=
+  let w := fun x => if leqb x key then chunks else [] in
+  rb_eqb (verify_signature (list N) w (sha256o payload h) (rsao fp h sg v) fp key sg) k &&
+  match payload with [] => true | _ => rb_eqb (verify_signature (list N) w (fun m => m) (fun _ hh _ => leqb hh payload) fp key sg) 1 end.
+Definition oeq (a : list N) (b : option (list N)) : bool := match b with Some x => leqb a x | None => false end.
+Definition xpkv (fp : list N) (now expires : Z) (der : option (list N)) (sg h : list N) (v : bool) (chunks : list (list N)) (k : N) : bool :=
+  rb_eqb (pk_verify (list N) unit (fun x => if oeq x der then chunks else []) (fun _ => h) (rsao fp h sg v) fp (fun _ => der) now expires tt sg) k.
+Definition xtvs (fp key sg h : list N) (v : bool) (inner last : list (list N)) (payload : list N) (k : N) : bool :=
+  let w := fun data x => match data with [] => if leqb x key then inner else [] | _ => [] end in
+  let c := fun data => if leqb data key then last else [] in
+  rb_eqb (user_VerifySignature w c (list N) (rsao fp h sg v) fp (sha256o payload h) key sg) k &&
+  match payload with [] => true | _ => rb_eqb (user_VerifySignature w c (list N) (fun _ hh _ => leqb hh payload) fp (fun m => m) key sg) 1 end.
+Definition xtpkv (fp : list N) (now expires : Z) (der : option (list N)) (sg h : list N) (v : bool) (inner last : list (list N)) (k : N) : bool :=
+  rb_eqb (user_PublicKey_Verify unit now (fun _ => der)
+            (fun data x => match data with [] => if oeq x der then inner else [] | _ => [] end)
+            (fun data => if oeq data der then last else []) (list N) (rsao fp h sg v) fp (fun _ => h) expires tt sg) k.
+"""
+C18_RES = {"0": 0, "1": 1, "panic": 2, "fuel": 3}
+
+
+def c18_text(tok):
+    """text_of: '=' followed by the raw bytes (accepted only when they are printable ASCII)"""
+    if not tok.startswith("=") or any(not (33 <= ord(ch) < 127) for ch in tok[1:]):
+        raise ValueError("text")
+    return "[" + ";".join(str(ord(ch)) for ch in tok[1:]) + "]%N" if len(tok) > 1 else "[]"
+
+
+def hexlen(h):
+    strict_hex(h)
+    return 0 if h in ("-", "") else len(h) // 2
+
+
+def hexsub(h, a, b):
+    h = "" if h == "-" else h
+    return strict_hex(h[2 * a:2 * b])
+
+
+def c18_chunks(keylen, text):
+    """driver/c18.ml b64_chunks, on hex text"""
+    total = hexlen(text)
+    interior = min(keylen // 3 * 4, total)
+    cs, pos = [], 0
+    while pos < interior:
+        e = min(pos + 1024, interior)
+        cs.append(hexsub(text, pos, e))
+        pos = e
+    inner, last = list(cs), []
+    if total > interior:
+        last = [hexsub(text, interior, total)]
+    return inner, last
+
+
+def c18(case, out):
+    c = [x for x in case.split(" ") if x]
+    o = [x for x in out.split(" ") if x]
+    if not c or not o or c[0] != o[0]:
+        return None
+    k = c[0]
+    b = lambda x: "true" if x else "false"
+    gl = lambda l: "[%s]" % "; ".join(l)
+    if k in ("dig", "tdig") and len(c) == 6 and len(o) == (4 if k == "dig" else 3) and o[1] == c[1]:
+        e, kk = ("None", C18_RES[o[2]]) if o[2] in ("panic", "fuel") else ("(Some %s)" % c18_text(o[2]), 0)
+        jh = "(Some %s)" % c18_text(o[3]) if k == "dig" else "None"
+        return "xdig %s %s %s %s %s %s %s %d %s" % (b(k == "tdig"), b(c[1] == "bot"), strict_hex(c[2]), strict_hex(c[3]), strict_hex(c[4]), strict_hex(c[5]), e, kk, jh)
+    if k == "twos" and len(c) == 3 and len(o) == 3 and o[1] == c[1]:
+        return "leqb (twos %s) %s" % (strict_hex(c[2]), strict_hex(o[2]))
+    if k == "lb" and len(c) == 2:
+        chunks = [] if c[1] == "." else [strict_hex(x) for x in c[1].split(",")]
+        if len(o) == 4:
+            ns = "[]" if o[2] == "." else "[%s]%%N" % ";".join(str(int(natlit(x)[:-4])) for x in o[2].split(","))
+            return "xlb %s (Some (%s, %s)) 0 %s" % (gl(chunks), strict_hex(o[1]), ns, strict_hex(o[3]))
+        if len(o) == 3 and o[1] in ("panic", "fuel"):
+            return "xlb %s None %d %s" % (gl(chunks), C18_RES[o[1]], strict_hex(o[2]))
+    if k == "const" and c == ["const", "pemLineLength"] and len(o) == 3:
+        return "N.eqb pem_line_length %s" % unlit(o[2])
+    if k == "aes" and len(c) == 2 and len(o) == 3 and o[1] == c[1] and o[2] in ("0", "1"):
+        return "Bool.eqb (aes_key_ok (repeat 0%%N %s)) %s" % (natlit(c[1]), b(o[2] == "1"))
+    if k in ("vs", "tvs") and len(c) == 7 and len(o) == 3 and o[1] in C18_RES:
+        inner, last = c18_chunks(hexlen(c[2]), c[4])
+        ch = gl(inner + last) if k == "vs" else "%s %s" % (gl(inner), gl(last))
+        return "x%s %s %s %s %s %s %s %s %d" % (k, strict_hex(c[1]), strict_hex(c[2]), strict_hex(c[3]), strict_hex(c[5]), b(c[6] == "1"), ch, strict_hex(o[2]), C18_RES[o[1]])
+    if k in ("pkv", "tpkv") and len(c) == 9 and len(o) == 2 and o[1] in C18_RES:
+        der = "None" if c[4] == "none" else "(Some %s)" % strict_hex(c[4])
+        inner, last = c18_chunks(0 if c[4] == "none" else hexlen(c[4]), c[6])
+        ch = gl(inner + last) if k == "pkv" else "%s %s" % (gl(inner), gl(last))
+        return "x%s %s %s %s %s %s %s %s %s %d" % (k, strict_hex(c[1]), strict_dec(c[2]), strict_dec(c[3]), der, strict_hex(c[5]), strict_hex(c[7]), b(c[8] == "1"), ch, C18_RES[o[1]])
+    return None
+
+
+# property -> (modules to import after Base.Bytes Base.Dec, definitions, converter)
+TABLE = {"C05": ("Model.C05", C05_DEFS, c05), "C11": ("Model.C11", C11_DEFS, c11), "C16": ("Model.C16", C16_DEFS, c16),
+         "C17": ("Model.C17", C17_DEFS, c17), "C10": ("Model.C10", C10_DEFS, c10),
+         "C06": ("Model.C06", C06_DEFS, c06, 200000),
+         "C07": ("Model.C05 Model.C07 Model.C07_conn", C07_DEFS, c07, 300000),
+         "C14": ("Model.C14", C14_DEFS, c14), "C15": ("Model.C14", C14_DEFS, c14),
+         "C18": ("Model.C18", C18_DEFS, c18, 250000)}
+
+
+OLD_SAMPLING = (c05, c10, c11, c16, c17)      # the first five keep exactly the sample they always had
+
+
+def tamper(line):
+    """driver answers changed in one place (self-test: the changed answer must be listed), most wanted first: the last
+    digit of the line replaced by another one (still a valid decimal / hex digit), an outcome word by a different one"""
+    for j in range(len(line) - 1, -1, -1):
+        if line[j].isdigit():
+            yield line[:j] + ("1" if line[j] == "0" else "0") + line[j + 1:]
+            break
+    for a, b in (("err", "panic"), ("panic", "err"), ("fuel", "err"), ("ok", "err"), ("true", "false"), ("false", "true"),
+                 ("bad", "ok"), ("z", "p"), ("p", "z"), ("some", "none"), ("none", "some")):
+        for pre in (" ", "="):
+            if line.endswith(pre + a) or (pre + a + " ") in line:
+                k = line.rindex(pre + a)
+                yield line[:k] + pre + b + line[k + 1 + len(a):]
 
 
 def main():
-    pid, work = sys.argv[1], sys.argv[2]
-    mx = int(sys.argv[3]) if len(sys.argv) > 3 else 400
-    model, defs, conv = TABLE[pid]
+    args = [a for a in sys.argv[1:] if not a.startswith("--")]
+    selftest = "--tamper" in sys.argv[1:]
+    pid, work = args[0], args[1]
+    mx = int(args[2]) if len(args) > 2 else 400
+    model, defs, conv = TABLE[pid][:3]
+    # elaborating the literals costs about 25 us per source character: properties with large payloads get a budget of
+    # source characters, shared equally by the case kinds (a case that does not fit is left out, counted in "oversize")
+    budget = TABLE[pid][3] if len(TABLE[pid]) > 3 else None
     cases = open(os.path.join(work, "cases.txt"), errors="replace").read().split("\n")
     outs = open(os.path.join(work, "model.txt"), errors="replace").read().split("\n")
     n = min(len(cases), len(outs))
     # an equal share for every case kind the harness emitted, spread evenly over the file
-    terms, skipped, kinds = [], 0, {}
+    terms, skipped, oversize, kinds = [], 0, 0, {}
     by_kind = {}
     for i in range(n):
         if cases[i].strip() and len(cases[i]) <= 6000:
             by_kind.setdefault(cases[i].split()[0], []).append(i)
     quota = max(1, mx // max(1, len(by_kind)))
+    kbudget = budget // max(1, len(by_kind)) if budget else None
+    tampered = []
     for k, idx in sorted(by_kind.items()):
         stride = max(1, len(idx) // quota)
-        got = 0
-        for i in idx[::stride]:
+        got, used = 0, 0
+        cand = idx[::stride]
+        if stride > 1 and conv not in OLD_SAMPLING:
+            # used only when the evenly spread pass left room (cases the renderer declines or that exceed the budget)
+            cand = cand + idx[stride // 2::stride] + idx[stride // 4::stride] + idx[(3 * stride) // 4::stride]
+        for i in cand:
             if got >= quota:
                 break
             try:
                 t = conv(cases[i], outs[i])
-            except (ValueError, IndexError):
+            except (ValueError, IndexError, KeyError):
                 t = None
             if t is None:
                 skipped += 1
                 continue
+            if kbudget and used + len(t) > kbudget and got >= 3:
+                oversize += 1
+                continue
+            if selftest and not any(kk == k for kk, _ in tampered):
+                # --tamper: one answer per kind is changed before it is rendered; exactly these must be listed
+                tt = None
+                for tl in tamper(outs[i]):
+                    try:
+                        tt = conv(cases[i], tl)
+                    except (ValueError, IndexError, KeyError):
+                        tt = None
+                    if tt is not None and tt != t:
+                        break
+                if tt is not None and tt != t:
+                    t = tt
+                    tampered.append((k, i))
             terms.append((i, t))
             got += 1
+            used += len(t)
         kinds[k] = got
     src = PRELUDE % model + defs + "\nDefinition R : list N := Eval vm_compute in bad [\n" + \
         ";\n".join("  (%d%%N, %s)" % (i, t) for i, t in terms) + "].\nPrint R.\n"
@@ -537,7 +1230,7 @@ def main():
     open(vf, "w").write(src)
     p = subprocess.run(["coqc", "-Q", COQ, "GoMC", vf], cwd=work, stdout=subprocess.PIPE, stderr=subprocess.STDOUT, text=True, timeout=900)
     txt = " ".join(p.stdout.split())
-    res = {"cases": len(terms), "skipped": skipped, "kinds": kinds, "rc": p.returncode, "bad": []}
+    res = {"cases": len(terms), "skipped": skipped, "oversize": oversize, "kinds": kinds, "rc": p.returncode, "bad": []}
     if p.returncode != 0:
         res["error"] = p.stdout[-1500:]
     elif "R = []" in txt or "R = nil" in txt:
@@ -547,6 +1240,10 @@ def main():
         m = re.search(r"R = \[(.*?)\]", txt)
         res["bad"] = [int(x) for x in re.findall(r"(\d+)%N|(\d+)", m.group(1)) for x in x if x] if m else [-1]
         res["bad_cases"] = [cases[i][:300] + " => " + outs[i][:300] for i in res["bad"][:5] if 0 <= i < n]
+    if selftest:
+        res["tampered"] = dict((k, i) for k, i in tampered)
+        res["tamper_listed"] = sorted(res["bad"]) == sorted(i for _, i in tampered) and len(tampered) > 0
+        res["kinds_not_tampered"] = sorted(set(k for k, g in kinds.items() if g) - set(k for k, _ in tampered))
     print(json.dumps(res))
     return 0
 
